@@ -589,7 +589,7 @@ def literal_value(n):
         if isinstance(v, (int, float)):
             return -v
     if k == 'CXXConstructExpr' or k == 'InitListExpr':
-        c = children(n)
+        c = [x for x in children(n) if x.get('kind') != 'CXXDefaultArgExpr']
         if len(c) == 1:
             return literal_value(c[0])
     return None
